@@ -46,7 +46,7 @@ func execC34B(t *testing.T, sc *c34Scenario, keepLog bool) *Outcome {
 		kind := sc.Key
 		scfg := &tls.Config{Certificates: []tls.Certificate{tlsCert(p.Server[kind], true, keyOfKind[kind])}, MinVersion: sc.Version, MaxVersion: sc.Version, CipherSuites: ecfg.Suites,
 			SessionTicketsDisabled: ecfg.NoTickets, Time: now}
-		ccfg := &tls.Config{RootCAs: p.RootPool, ServerName: serverName, MinVersion: sc.Version, MaxVersion: sc.Version, CipherSuites: ecfg.Suites, ForceSuites: true, Time: now}
+		ccfg := &tls.Config{RootCAs: p.RootPool, ServerName: serverName, MinVersion: sc.Version, MaxVersion: sc.Version, CipherSuites: ecfg.Suites, ForceSuites: true, Time: now, Renegotiation: tls.RenegotiationSupport(sc.Renego)}
 		_ = r
 		ca, cb := kit.BPipe(sc.Net.Window)
 		lat := []time.Duration{0, 150 * time.Microsecond, 1500 * time.Microsecond}[sc.Seed%3]
@@ -121,6 +121,15 @@ func execC34B(t *testing.T, sc *c34Scenario, keepLog bool) *Outcome {
 						c.SetReadDeadline(time.Now().Add(time.Duration(op.DelayMs+500) * time.Millisecond))
 					case "setwdl":
 						c.SetWriteDeadline(time.Now().Add(time.Duration(op.DelayMs+500) * time.Millisecond))
+					case "hello_request":
+						if c.ConnectionState().HandshakeComplete {
+							c.WriteRecord(22, []byte{0, 0, 0, 0})
+						}
+					case "key_update_kill":
+						if c.ConnectionState().HandshakeComplete {
+							c.WriteRecord(22, []byte{24, 0, 0, 1, 1})
+							c.NetConn().Close()
+						}
 					case "closewrite":
 						c.CloseWrite()
 					case "close":
